@@ -78,10 +78,17 @@ def pipelineAll (geom : List (Atom Rat)) (self : WeightArg) (ffVar : Option Stri
   | some ps, some qs => pipeline geom self ffVar ignoreMissing ps qs
   | _, _ => .mapError .keyerror
 
+/-- `Processor.run_system` is a plain loop: an exception of one molecule propagates, the molecules
+after it are not processed -/
+def untilError : List (Outcome Rat) → List (Outcome Rat)
+  | [] => []
+  | .ok l :: r => .ok l :: untilError r
+  | e :: _ => [e]
+
 /-- one `run_system`: the molecules of a system in turn, each with the `center_weight` variable of
-ITS force field, through one `DoAverageBead` object (`runHistoryQ`) -/
+ITS force field, through one `DoAverageBead` object (`runHistoryQ`), up to the first exception -/
 def runSystemQ (p : Proc) (mols : List (Option String × List (Bead Rat))) : List (Outcome Rat) :=
-  runHistoryQ p mols
+  untilError (runHistoryQ p mols)
 
 /-- `2^e` for an integer exponent -/
 def pow2 (e : Int) : Rat := if 0 ≤ e then ((2 ^ e.toNat : Nat) : Rat) else 1 / ((2 ^ (-e).toNat : Nat) : Rat)
